@@ -1,7 +1,9 @@
 #!/bin/bash
 # usage: try_seeded.sh <name> <prop> [<prop> ...]  -- applies /verif/seeded/<name>/patch.diff to /repo, runs the checks, undoes it
+# (the evidence files written while the change is applied are discarded: evidence is for the unchanged tree only)
 name=$1; shift
 cd /repo && git apply /verif/seeded/$name/patch.diff || { echo "patch does not apply"; exit 2; }
 cd /verif
 for p in "$@"; do echo "--- $p"; ./check $p 2>&1 | grep -v "^note" | tail -3; done
 cd /repo && git checkout -- . && git status --short | head -3
+cd /verif && git checkout -- evidence 2>/dev/null
